@@ -245,6 +245,7 @@ func (g *gen) chain(fam string) Desc {
 	d.TimeoutMs = []int{800, 1500}[r.Intn(2)]
 	noComplete := false
 	mismatchComplete := false
+	retained := false
 	switch fam {
 	case "timeout":
 		d.Hint = "timeout"
@@ -271,6 +272,13 @@ func (g *gen) chain(fam string) Desc {
 	case "once":
 		d.Hint = "any"
 		repeatAt, repeatN = r.Intn(k), 1+r.Intn(2)
+		if r.Intn(5) < 2 {
+			// the once callback keeps its output and nothing follows: only the re-examination of
+			// the same output on an empty poll can produce the once error
+			retained = true
+			cut = repeatAt
+			d.Echo = d.Echo && r.Intn(2) == 0
+		}
 	case "nexttimeout":
 		d.Hint = "timeout"
 		if r.Intn(2) == 0 {
@@ -321,6 +329,9 @@ func (g *gen) chain(fam string) Desc {
 		}
 		if cb.Once && r.Intn(5) == 0 {
 			cb.NoReset = true
+		}
+		if retained && i == repeatAt {
+			cb.Once, cb.NoReset = true, true
 		}
 		cb.ResetOpt = !cb.NoReset && r.Intn(5) == 0
 		if i == ntAt {
@@ -380,6 +391,11 @@ func (g *gen) chain(fam string) Desc {
 	r.Shuffle(len(cbs), func(i, j int) { cbs[i], cbs[j] = cbs[j], cbs[i] })
 	d.CBs = cbs
 	g.transport(&d)
+	if retained && r.Intn(4) != 0 {
+		// the text must end with the chunk that completes the keyword, else the next chunk's
+		// examination already yields the once error
+		d.Seg.Mode, d.Seg.Size, d.ReadSize = "whole", 0, 8192
+	}
 	return d
 }
 
